@@ -155,6 +155,7 @@ class Zooming(Algorithm):
                 self.partition.make_children(parent=parent, newlayer=False)
 
             children_list = parent.get_children()
+            arm_kept = False  # the arm is handed to exactly one child, every other child gets a new arm
             for child in children_list:
                 child_domain = child.get_domain()
                 point = self.best_arm.get_point()
@@ -173,9 +174,14 @@ class Zooming(Algorithm):
                         break
 
                 if not child_updated:
-                    self.active_points[
-                        self.best_arm
-                    ] = child  # else, update the active arm to refer to the child node
+                    if not arm_kept:
+                        self.active_points[
+                            self.best_arm
+                        ] = child  # else, update the active arm to refer to the child node
+                        arm_kept = True
+                    else:
+                        # the arm lies on a face shared with a child that already took it over
+                        self.make_active(child)
 
     def get_last_point(self):
         """
